@@ -81,6 +81,26 @@ NEEDS.update({
  'C17-4': ("C17","a rejected range whose text starts with blanks (input() loses them)",""),
  'C18-4': ("C18","HISTORY: Version::parse of `X+build` immediately followed by parse of `X` (thread-local parse memo keyed without build)","caught by C05 / C12 from the start (the input-tree walk visits such siblings consecutively); by C18 itself after adding a sibling parse before each comparison"),
 })
+
+NEEDS.update({
+ 'C01-5': ("C01","a `||` alternative lying inside the alternative right before it and carrying a prerelease tag (`^1.2.0 || 1.4.0-rc.1 - 1.6.x`), dropped by a dedup at parse time",""),
+ 'C02-5': ("C02","three or more space-joined comparators whose prefix is already contradictory (the fold restarts after an empty intersection)",""),
+ 'C03-5': ("C03","lower bound tagged on another triple, upper bound tagged on the version's triple (same idea as C01-2, found independently)",""),
+ 'C04-5': ("C04","prerelease lists sharing an equal numeric identifier at a non-final position and differing after it",""),
+ 'C05-5': ("C05","an all-digit last identifier directly followed by a trailing blank (`1.0.0-alpha.9 `)",""),
+ 'C07-5': ("C07","a narrow prerelease-bounded piece inside a wider release-only piece computed earlier in a multi-alternative intersection (also A & A)","MISSED at first in quick (two-alternative leaves had no tagged bounds); caught after adding tagged two-alternative operands in both orders, each also against itself"),
+ 'C08-5': ("C08","A with overlapping alternatives, an alternative of B contained in an earlier alternative of A and overlapping a later one",""),
+ 'C09-5': ("C09","an even number of identical pieces in a multi-alternative intersection (mutual-subsumption dedup removes both)",""),
+ 'C10-5': ("C10","a numeric identifier against a digit- or hyphen-led alphanumeric one at the same position (hand-rolled comparison via strings)",""),
+ 'C11-5': ("C11","alternatives sorted by lower bound and the first non-empty one taken: an exclusive release lower bound / open-below alternative next to a prerelease floor",""),
+ 'C12-5': ("C12","a prerelease or build list whose first identifier occurs again later (`rc.1.rc.2`)",""),
+ 'C13-5': ("C13","inclusive bounds on the same triple with different tags (`>=1.2.3-beta.2 <=1.2.3` printed as an exact version)",""),
+ 'C14-5': ("C14","a later alternative bounds-contained in an earlier one and carrying the only tag that admits the extreme prerelease (`1.x || ^1.4.0-beta.2`)","MISSED at first (no such nested tagged alternative among the 40 ranges); caught after adding six of them"),
+ 'C15-5': ("C15","overlapping alternatives in narrow-before-wide order intersected with a range covering both (allows_all arguments swapped)",""),
+ 'C16-5': ("C16","tags `<name>.<number>...` equal in the first two identifiers and differing later","caught by C04 from the start; by C16 after adding tags `a.0.1`, `a.0.b` to its universe"),
+ 'C17-5': ("C17","a range containing a full version followed by a dangling `+` (cut error escaping the range parser)",""),
+ 'C18-5': ("C18","a component above 51 (u8/i8), 13107 (16-bit) or 858993459 (32-bit): MAX_SAFE_INTEGER narrowed per integer type",""),
+})
 rows=[]
 for sid,(prop,needs,note) in sorted(NEEDS.items()):
     d=f'/verif/seeded/{sid}'
